@@ -259,13 +259,13 @@ Section Hist.
     FInv (fst (run_node_sync po lab w cached key outs)).
   Proof.
     intros I Hc. unfold run_node_sync. destruct (w_ctl w) as [m|] eqn:Em; [|exact I].
-    destruct (sync_node po lab (can_patch w key) (api_same w key) (held_cidrs (w_ncache w)) m cached (find_node key (w_ncache w)) outs)
+    destruct (sync_node po lab (svc_list (w_svc w)) (can_patch w key) (api_same w key) (held_cidrs (w_ncache w)) m cached (find_node key (w_ncache w)) outs)
       as [[m' r] fx] eqn:Es.
     cbn [fst]. pose proof (wi_ctl w (fi_w w I) m Em) as M.
     destruct (res_eq_panic r) as [->|Hnp].
-    { rewrite (sync_node_panic_writes_nothing _ _ _ _ _ _ _ _ _ _ _ M Es). cbn. apply crashed_finv. exact I. }
-    destruct (sync_node_keeps _ _ _ _ _ _ _ _ _ _ _ _ M Hc Hnp Es) as (Hmono & Havoid & Hkept).
-    assert (M' : MapInv m') by (eapply sync_node_inv; [exact M|intros n E; apply (Hc n E)|exact Es]).
+    { rewrite (sync_node_panic_writes_nothing _ _ _ _ _ _ _ _ _ _ _ _ M Es). cbn. apply crashed_finv. exact I. }
+    destruct (sync_node_keeps _ _ _ _ _ _ _ _ _ _ _ _ _ M Hc Hnp Es) as (Hmono & Havoid & Hkept).
+    assert (M' : MapInv m') by (eapply sync_node_inv; [exact M|exact (wi_svc w (fi_w w I))|intros n E; apply (Hc n E)|exact Es]).
     (* the world after the call, before the API writes are applied *)
     assert (IA : FInv (after_call w r m')).
     { assert (Hac : after_call w r m' = set_ctl w (Some m')) by (unfold after_call; destruct r; [reflexivity|reflexivity|contradiction]).
@@ -275,13 +275,13 @@ Section Hist.
     assert (Hnodes : w_nodes (after_call w r m') = w_nodes w) by (unfold after_call; destruct r; reflexivity).
     destruct (patch_dec fx) as [(nm & cs & o & Hin)|Hno].
     - apply (apply_effects_finv fx _ nm cs IA).
-      + exact (sync_node_patches_wf po lab _ _ _ _ _ _ _ _ _ _ M Es nm cs o Hin).
-      + intros nm' cs' o' Hin'. exact (sync_node_patches_same _ _ _ _ _ _ _ _ _ _ _ _ Es _ _ _ _ _ _ Hin' Hin).
+      + exact (sync_node_patches_wf po lab _ _ _ _ _ _ _ _ _ _ _ M Es nm cs o Hin).
+      + intros nm' cs' o' Hin'. exact (sync_node_patches_same _ _ _ _ _ _ _ _ _ _ _ _ _ Es _ _ _ _ _ _ Hin' Hin).
       + rewrite Hnodes. intros b Hb Hne d Hd x Hx. eapply Havoid; [exact Hin| |exact Hx].
         eapply (fi_held w I m Em b d Hb Hd).
       + intros (o' & Hin' & Ho') m0 E0 x Hx. rewrite Hctl in E0. inversion E0; subst m0.
         eapply Hkept; [exact Hin'| |exact Hx].
-        exact (sync_node_applied_is_kept _ _ _ _ _ _ _ _ _ _ _ _ M Es _ _ _ Hin' Ho').
+        exact (sync_node_applied_is_kept _ _ _ _ _ _ _ _ _ _ _ _ _ M Es _ _ _ Hin' Ho').
     - apply (apply_effects_finv fx _ key [] IA); [constructor| | |].
       + intros nm' cs' o' Hin'. destruct (Hno _ _ _ Hin').
       + intros b _ _ d _ x [].
@@ -347,7 +347,7 @@ Section Hist.
   Lemma handle_nevent_nodes w e : w_nodes (fst (handle_nevent w e)) = w_nodes w.
   Proof.
     unfold handle_nevent. destruct e as [n|n|n]; cbn [set_caches w_ctl]; try (destruct (w_ctl w); reflexivity).
-    destruct (w_ctl w) as [m|]; [|reflexivity]. destruct (release_cidr m n) as [m' r]. destruct r; reflexivity.
+    destruct (w_ctl w) as [m|]; [|reflexivity]. destruct (release_cidr (svc_list (w_svc w)) m n) as [m' r]. destruct r; reflexivity.
   Qed.
 
   Definition ev_ok (w : world) (e : nevent) : Prop :=
@@ -431,7 +431,7 @@ Section Hist.
       destruct (fi_feed w I e ltac:(rewrite Ef; left; reflexivity)) as (A & B & C).
       apply handle_nevent_finv; try assumption.
       + pose proof I as I0. fsplit I; try assumption.
-        * pose proof (fi_w w I0) as Ww. destruct Ww as [a1 b1 c1 d1 e1 f1 g1 h1 i1]. constructor; cbn; try assumption. rewrite Ef in c1. inversion c1; assumption.
+        * pose proof (fi_w w I0) as Ww. destruct Ww as [a1 b1 c1 d1 e1 f1 g1 h1 i1 j1]. constructor; cbn; try assumption. rewrite Ef in c1. inversion c1; assumption.
         * intros x Hx. apply Ffd. rewrite Ef. right. exact Hx.
       + pose proof (wi_nfeed w (fi_w w I)) as Hf. rewrite Ef in Hf. inversion Hf; assumption.
     - (* DeliverNodeTombstone: there is no deletion to deliver *)
@@ -446,7 +446,7 @@ Section Hist.
     - (* RelistNodes *)
       destruct (w_synced w); [|exact I]. apply deliver_all_n_finv.
       + pose proof I as I0. fsplit I; try assumption.
-        * pose proof (fi_w w I0) as Ww. destruct Ww as [a1 b1 c1 d1 e1 f1 g1 h1 i1]. constructor; cbn; try assumption. constructor.
+        * pose proof (fi_w w I0) as Ww. destruct Ww as [a1 b1 c1 d1 e1 f1 g1 h1 i1 j1]. constructor; cbn; try assumption. constructor.
         * intros e [].
       + cbn [set_caches w_nodes]. unfold relist_nevents. apply Forall_app. split.
         * rewrite Forall_forall. intros e He. apply in_map_iff in He. destruct He as (a & <- & Ha). cbn.
@@ -470,7 +470,7 @@ Section Hist.
       apply find_some in Ef. destruct Ef as [Hin _].
       apply run_node_sync_finv.
       + pose proof I as I0. fsplit I; try assumption.
-        * pose proof (fi_w w I0) as Ww. destruct Ww as [a1 b1 c1 d1 e1 f1 g1 h1 i1]. constructor; cbn; try assumption.
+        * pose proof (fi_w w I0) as Ww. destruct Ww as [a1 b1 c1 d1 e1 f1 g1 h1 i1 j1]. constructor; cbn; try assumption.
           intros wk' k n Hi. apply filter_In in Hi. destruct Hi as [Hi _]. eapply g1. exact Hi.
         * intros wk' k n Hi. apply filter_In in Hi. destruct Hi as [Hi _]. eapply Fft. exact Hi.
       + intros n E. subst cached. split; [eapply (wi_nfetch w (fi_w w I)); exact Hin|eapply (fi_fetch w I); exact Hin].
@@ -480,7 +480,7 @@ Section Hist.
       apply find_some in Ef. destruct Ef as [Hin _].
       apply run_cc_sync_finv.
       + apply (finv_same w); try reflexivity; [exact I|].
-        pose proof (fi_w w I) as Ww. destruct Ww as [a1 b1 c1 d1 e1 f1 g1 h1 i1]. constructor; cbn; try assumption.
+        pose proof (fi_w w I) as Ww. destruct Ww as [a1 b1 c1 d1 e1 f1 g1 h1 i1 j1]. constructor; cbn; try assumption.
         intros wk' k n Hi. apply filter_In in Hi. destruct Hi as [Hi _]. eapply h1. exact Hi.
       + intros n E. subst cached. eapply (wi_cfetch w (fi_w w I)). exact Hin.
     - (* ProcNode *)
@@ -577,8 +577,8 @@ Section Hist.
       eapply construct_inv; [exact (wi_ccs w (fi_w w I))| |exact H1|exact H2|exact Ec].
       rewrite Forall_forall. intros n Hin. apply in_map_iff in Hin. destruct Hin as (a & <- & Ha). apply wf_node_view. eapply in_anodes_wf; [exact (fi_w w I)|exact Ha]. }
     pose proof I as I0. fsplit I; try assumption.
-    - pose proof (fi_w w I0) as Ww. destruct Ww as [a1 b1 c1 d1 e1 f1 g1 h1 i1].
-      constructor; cbn; [assumption|assumption|constructor|constructor|constructor|constructor|intros; contradiction|intros; contradiction|exact M].
+    - pose proof (fi_w w I0) as Ww. destruct Ww as [a1 b1 c1 d1 e1 f1 g1 h1 i1 j1].
+      constructor; cbn; [assumption|assumption|constructor|constructor|constructor|constructor|intros; contradiction|intros; contradiction|exact M|apply svc_list_wf; assumption].
     - intros e [].
     - intros n [].
     - intros wk key n [].
